@@ -56,10 +56,14 @@ func genRespSpec(rng *PRNG, name string) respSpec {
 		"Pet":   map[string]any{"type": "object", "required": []any{"id", "name"}, "properties": map[string]any{"id": map[string]any{"type": "integer", "format": "int64"}, "name": map[string]any{"type": "string"}, "tag": map[string]any{"type": "string"}, "born": map[string]any{"type": "string", "format": "date-time"}, "score": map[string]any{"type": "number"}}},
 		"Error": map[string]any{"type": "object", "required": []any{"message"}, "properties": map[string]any{"message": map[string]any{"type": "string"}, "code": map[string]any{"type": "integer"}}, "additionalProperties": true},
 		"Pets":  map[string]any{"type": "array", "items": map[string]any{"$ref": "#/components/schemas/Pet"}},
+		// a composition that keeps its members' keys apart from its own additional ones
+		"Tagged": map[string]any{"allOf": []any{map[string]any{"$ref": "#/components/schemas/Pet"},
+			map[string]any{"type": "object", "properties": map[string]any{"owner": map[string]any{"type": "string"}}, "additionalProperties": map[string]any{"type": "string"}}}},
 	}
 	hdrTypes := []map[string]any{{"type": "string"}, {"type": "integer"}, {"type": "boolean"}, {"type": "integer", "format": "int64"}, {"type": "number"}, {"type": "string", "format": "date-time"},
 		{"type": "array", "items": map[string]any{"type": "integer"}}, {"type": "array", "items": map[string]any{"type": "string"}}}
-	hdrNames := []string{"X-Next", "x-total", "X-Rate-Limit", "ETag", "x-flag"}
+	hdrNames := []string{"X-Next", "x-total", "X-Rate-Limit", "ETag", "x-flag", "Retry-After"}
+	compHeaders := map[string]any{}
 	mkHeaders := func() (map[string]any, []string) {
 		n := rng.Intn(3)
 		hs := map[string]any{}
@@ -73,7 +77,15 @@ func genRespSpec(rng *PRNG, name string) respSpec {
 			if rng.Bool() {
 				h["required"] = true
 			}
-			hs[hn] = h
+			if sch, _ := h["schema"].(map[string]any); rng.Chance(1, 3) && sch["type"] != "array" {
+				// a shared header (goag refuses array-typed component headers with an error): the
+				// response's own key names it on the wire, not the component's
+				cn := fmt.Sprintf("Shared%dHdr", len(compHeaders))
+				compHeaders[cn] = h
+				hs[hn] = map[string]any{"$ref": "#/components/headers/" + cn}
+			} else {
+				hs[hn] = h
+			}
 			names = append(names, hn)
 		}
 		sort.Strings(names)
@@ -84,7 +96,9 @@ func genRespSpec(rng *PRNG, name string) respSpec {
 		case 0:
 			return nil, "", "none"
 		case 1:
-			return map[string]any{"text/plain": map[string]any{"schema": map[string]any{"type": "string"}}}, "text/plain", "raw"
+			// the documented media type is what has to be sent, parameters and letter case included
+			mt := Pick(rng, []string{"text/plain", "text/plain; charset=utf-8", "text/CSV; header=present", "application/vnd.acme.v2+xml"})
+			return map[string]any{mt: map[string]any{"schema": map[string]any{"type": "string"}}}, mt, "raw"
 		case 2:
 			return map[string]any{"application/json": map[string]any{"schema": map[string]any{"$ref": "#/components/schemas/Pets"}}}, "application/json", "json"
 		case 3:
@@ -192,7 +206,7 @@ func genRespSpec(rng *PRNG, name string) respSpec {
 			if rng.Chance(1, 4) {
 				op["requestBody"] = map[string]any{"content": map[string]any{"application/octet-stream": map[string]any{"schema": map[string]any{"type": "string", "format": "binary"}}}}
 			} else {
-				op["requestBody"] = map[string]any{"content": map[string]any{"application/json": map[string]any{"schema": map[string]any{"$ref": "#/components/schemas/" + Pick(rng, []string{"Pet", "Error", "Pets"})}}}}
+				op["requestBody"] = map[string]any{"content": map[string]any{"application/json": map[string]any{"schema": map[string]any{"$ref": "#/components/schemas/" + Pick(rng, []string{"Pet", "Error", "Pets", "Tagged"})}}}}
 			}
 		}
 		responses := map[string]any{}
@@ -301,7 +315,7 @@ func genRespSpec(rng *PRNG, name string) respSpec {
 		}
 	}
 	doc := map[string]any{"openapi": "3.0.3", "info": map[string]any{"title": "t", "version": "1"}, "paths": paths,
-		"components": map[string]any{"schemas": schemas, "responses": compResponses}}
+		"components": map[string]any{"schemas": schemas, "responses": compResponses, "headers": compHeaders}}
 	if rng.Chance(1, 3) {
 		doc["servers"] = []any{map[string]any{"url": "/api/v1"}}
 		rs.Base = "/api/v1"
